@@ -13,6 +13,8 @@
 (* is re-synchronised from the observation, so the property monitors below *)
 (* are always evaluated on what the engine really did:                     *)
 (*   ReplyIsOwn, SilentStaysSilent, AtMostOneSend   at every send          *)
+(*   ReplyOptIsOwn (the COOKIE option of the bytes leaving is built from   *)
+(*   the client cookie of the packet in RX, or absent)   at every send     *)
 (*   OwnershipWalk (SingleOwner / ReleaseOnce)      at every transition    *)
 (*   LeaseBound                                     at every line          *)
 (*   AllHome (Quiesced <=> nothing queued/serving)  at every `final`       *)
@@ -40,7 +42,9 @@ Is(e) == l <= Len(TraceLog) /\ Line.ev = e /\ l' = l + 1
 Get(j) == IF j \in DOMAIN sl THEN sl[j] ELSE FreshSlab
 Addr(a) == IF a = "" THEN None ELSE a
 RxTag == IF Line.rxid = -1 /\ Line.rxq = "" /\ Line.rk = "" THEN None
-         ELSE [id |-> Line.rxid, q |-> Line.rxq, k |-> Line.rk]
+         ELSE [id |-> Line.rxid, q |-> Line.rxq, k |-> Line.rk, opt |-> Line.rxopt, ck |-> Line.rxck,
+               n |-> Line.rxn, ka |-> Line.rxk]
+Ck(c) == IF c = "" THEN None ELSE c
 TxTag == [id |-> Line.txid, q |-> Line.txq]
 TL == IF Line.tl > 0 THEN 1 ELSE 0
 
@@ -97,7 +101,7 @@ Overflow ==
 
 Stage ==
   /\ Is("stage")
-  /\ LET s == Get(Line.j) m == [OpStage(s) EXCEPT !.tx = TxTag] IN Step(Line.j, m, Line.st)
+  /\ LET s == Get(Line.j) m == [OpStage(s) EXCEPT !.tx = TxTag, !.txck = Ck(Line.txck)] IN Step(Line.j, m, Line.st)
   /\ UNCHANGED <<cfg, own>> /\ last' = NoSend /\ home' = home
 
 BurstAdd ==
@@ -113,6 +117,8 @@ Send(how) ==
                  to    |-> IF how = "sendBatch" THEN Addr(Line.sa) ELSE Addr(Line.src),
                  from  |-> s.raddr,
                  rx    |-> s.rx, txid |-> Line.txid, txq |-> Line.txq,
+                 txck  |-> Line.txck,        \* client half of the COOKIE option in the bytes leaving
+                 txn   |-> Line.txn, txk |-> Line.txk,   \* ... their NSID / edns-tcp-keepalive options
                  wrote |-> (how = "sendNow") \/ s.wrote,
                  nth   |-> s.sends + 1]
      /\ Step(j, IF how = "sendNow" THEN OpWriteNow(s) ELSE OpSent(s), Line.st)
@@ -145,6 +151,17 @@ ReplyIsOwn ==
     /\ last.txid = last.rx.id
     /\ last.txq = "" \/ last.txq = last.rx.q
     /\ last.to # None /\ last.to = last.from
+
+(* the OPT of the bytes leaving derives only from the packet they answer:   *)
+(* a COOKIE option only if that packet carried a client cookie, and then    *)
+(* built from exactly those 8 bytes -- never from what an earlier request   *)
+(* left in the job-owned edns writer slot; NSID and edns-tcp-keepalive only  *)
+(* if that packet asked (the wishes in the slot are the current request's)  *)
+ReplyOptIsOwn ==
+  last.valid =>
+    /\ last.txck # "" => (last.rx # None /\ last.txck = last.rx.ck)
+    /\ last.txn => (last.rx # None /\ last.rx.n)
+    /\ last.txk => (last.rx # None /\ last.rx.ka)
 
 (* a request decided in silence causes no datagram; nothing staged by an   *)
 (* earlier lease survives into this one                                    *)
